@@ -48,9 +48,10 @@ ASSUMPTIONS = [
 ]
 
 COMPS = ['a', 'b', 'ab', 'cd', 'xy', 'x', 'src', 'lib', 'a.b', '..x', 'x..',
-         '...', 'ab.cd', 'long_name', 'é', 'a b', '1', '12']
+         '...', 'ab.cd', 'long_name', 'é', 'a b', '1', '12', 'v1..', 'v1PAR',
+         'PARa', 'x.']
 STEMS = ['x', 'y', 'main', 'a', 'ab', 'util.v1', 'util.v2', 'x.tab', '..',
-         'a b']
+         'a b', 'y..', 'yPAR']
 EXTS = ['.c', '.c', '.c', '.cpp', '.cc']
 
 
